@@ -2,6 +2,8 @@
 
 package http2
 
+import "net"
+
 // Verification hooks, compiled out. See verif_hooks_on.go.
 
 func verifPoolGet(kind uint8, obj interface{}) {}
@@ -37,3 +39,6 @@ const (
 
 func verifTick(which int)                                                  {}
 func verifGauge(strms, open, closedRing int, recvWindow, sendWindow int64) {}
+
+// verifDial lets the harness hand the Dialer its connections (never without the tag).
+func verifDial(d *Dialer) (net.Conn, bool, error) { return nil, false, nil }
